@@ -270,6 +270,14 @@ def gen_aig(rng, ty, small=False):
         if wide and rng.random() < 0.7:
             a = rng.randrange(0, max(1, code - 128))
             b = rng.randrange(0, max(1, a - 127)) if rng.random() < 0.7 else rng.randrange(0, a + 1)
+            if rng.random() < 0.5:     # deltas at the group boundaries of the 7-bit encoding
+                d0 = rng.choice([127, 128, 129, 255, 256])
+                if code - d0 >= 0:
+                    a = code - d0
+                    b = rng.randrange(0, a + 1)
+                d1 = rng.choice([127, 128, 129])
+                if rng.random() < 0.5 and a - d1 >= 0:
+                    b = a - d1
         ands.append((code, a, b))
     latches = []
     for j in range(L):
